@@ -63,6 +63,28 @@ def run(report, p):
         if name.endswith("MHLHistory.renamed_path_with_previous_path"):
             its = [norm(n.iter) for n in walk_no_nested(f.node) if isinstance(n, ast.For)]
             r1.check(any(x.endswith("hash_lists") for x in its) and any(x.endswith("child_histories") for x in its), f, f.node, "the rename map does not cover all generations and all child histories", construct="rename map coverage")
+            # members of the returned map: whole per-generation maps and whole child maps; a single value written into it must be a path
+            # (an element of such a map, or a lookup with a path default) - never a lookup that yields None for an absent key
+            for rt in [n for n in walk_no_nested(f.node) if isinstance(n, ast.Return) and n.value is not None]:
+                for o in pr.origins(rt.value, f):
+                    for a in alts(o):
+                        if not (a[0] == "op" and a[1] == "collect-dict"):
+                            raise AnalysisError(f"{f.loc(rt)}: the history-level rename map is not a dict filled in this function: {show(a)[:100]}")
+                        for m in a[2]:
+                            if m[0] == "op" and m[1] == "allof":
+                                okm = all(x[0] == "call" and x[1].endswith("renamed_path_with_previous_path") for x in m[2])
+                                r1.check(okm, f, rt, f"the rename map is merged with something that is not a per-generation / child rename map: {show(m)[:100]}", construct="rename map member")
+                                continue
+                            vals = m[2] if (m[0] == "op" and m[1] == "elemof") else [m]
+                            for v in vals:
+                                for vv in alts(v):
+                                    if vv[0] == "call" and vv[1].split(".")[-1] in ("get", "pop") and (vv[1].startswith(("extm:", "unk:", "builtinm:")) or "dict" in vv[1]):
+                                        if len(vv[2]) < 2:
+                                            r1.check(False, f, rt, f"a value of the rename map comes from `{show(vv)[:80]}`, which is None for a path that was not renamed again: the expected-path rewrite then yields None instead of a path", construct="rename map value can be None (.get without default)")
+                                        continue
+                                    if vv[0] == "elem" or (vv[0] == "call" and vv[1] == "ext:os.path.join"):
+                                        continue
+                                    raise AnalysisError(f"{f.loc(rt)}: a value written into the rename map has a source this checker does not model: {show(vv)[:120]}")
         else:
             st2 = [n for n in walk_no_nested(f.node) if isinstance(n, ast.Assign) and isinstance(n.targets[0], ast.Subscript)]
             ok = len(st2) == 1 and "previous_path" in norm(st2[0].targets[0].slice) and norm(st2[0].value).endswith(".path)") and "previous_path" not in norm(st2[0].value)
